@@ -42,7 +42,7 @@ def make_dist(rng):
     nk = rng.randint(1, 12)
     top = 7 if rng.random() < 0.93 else rng.choice([300, 70000])      # rarely: degrees beyond 255 / 65535
     keys = list({tuple(rng.randrange(0, top) for _ in range(T)) for _ in range(nk)})
-    wstyle = rng.choice(["spread", "equal", "dominant", "normalised"])
+    wstyle = rng.choice(["spread", "equal", "dominant", "normalised", "almost-normalised"])
     if wstyle == "equal":
         w = [1.0] * len(keys)
     elif wstyle == "dominant":
@@ -53,6 +53,18 @@ def make_dist(rng):
         if wstyle == "normalised":
             s = sum(w)
             w = [x / s for x in w]
+        if wstyle == "almost-normalised":
+            # a truncated analytic pmf: geometric weights over the listed keys, the tail beyond the table (1e-12..1e-7) missing,
+            # the last key tiny - "normalised or not" includes "almost"
+            q = rng.choice([0.3, 0.5, 0.6])
+            w = [(1 - q) * q ** i for i in range(len(keys))]
+            eps = 10 ** rng.uniform(-12, -7)
+            s = sum(w)
+            w = [x / s * (1 - eps) for x in w]
+            if len(w) > 1:
+                tiny = min(w[-1], 10 ** rng.uniform(-11, -9))
+                w[0] += w[-1] - tiny          # the total stays 1 - eps
+                w[-1] = tiny
     sstyle = rng.choice(["mixed", "mixed", "ones", "big"])
     if sstyle == "ones":
         sizes = [1] * T
@@ -95,7 +107,8 @@ def check_sample(res, L, N, keys, sizes, tap, ctx, weights=None):
         if wts is not None and weights is not None:
             zw, zm = float(sum(wts)), float(sum(weights))
             model = dict(zip(keys, weights))
-            if any(abs(w / zw - model[k] / zm) > 1e-9 for k, w in zip(pop, wts)):
+            # (absolute on the normalised scale: weights recovered from a cumulative table carry a rounding error of ~1e-16, not more)
+            if any(abs(w / zw - model[k] / zm) > 1e-12 for k, w in zip(pop, wts)):
                 res.violate("draw-weights-are-not-proportional-to-the-current-distribution", passed=list(zip(pop, wts))[:8], ctx=ctx); return None
             res.count("weights_checked_at_hook")
         need_any = False
